@@ -78,6 +78,7 @@ typedef void (*DigestFn)(const void* obj, Out& out);
 
 struct Pool {
   uint64_t seed;
+  bool preparing = false;  // true while the preparation run builds the objects
   const void* get(const char* kind, int index, MakeFn make, DigestFn digest, size_t bytes);
   size_t size() const;
   void digest_all(Out& out) const;
